@@ -1,6 +1,8 @@
 package main
 
 import (
+	"crypto/sha256"
+	"encoding/hex"
 	"encoding/json"
 	"flag"
 	"fmt"
@@ -113,6 +115,7 @@ func runMutant(repo string, m Mutant, prop string, known *core.KnownFile) (res m
 	for _, r := range rules.For(prop) {
 		r.Run(ctx)
 	}
+	rules.Forget(prog)
 	knownSet := map[string]bool{}
 	for _, k := range known.Known {
 		knownSet[k.Property+"|"+k.Key] = true
@@ -248,6 +251,26 @@ func thorough(args []string) int {
 			falseAlarms = append(falseAlarms, r.Name+": "+strings.Join(r.Reported, "; "))
 		}
 	}
+	// behaviour-preserving refactorings: must stay silent
+	bvs := loadBenign(filepath.Join(*verif, "benign"))
+	bres := make([]mutantResult, len(bvs))
+	for i := range bvs {
+		wg.Add(1)
+		sem <- struct{}{}
+		go func(i int) {
+			defer wg.Done()
+			defer func() { <-sem }()
+			bres[i] = runBenign(dir, bvs[i], *prop, known)
+		}(i)
+	}
+	wg.Wait()
+	for _, r := range bres {
+		counts["refactoring-"+r.Outcome]++
+		if r.Outcome == "false-alarm" || r.Outcome == "error" {
+			falseAlarms = append(falseAlarms, r.Name+": "+strings.Join(r.Reported, "; "))
+		}
+	}
+	extra["refactorings"] = bres
 	extra["mutants"] = results
 	extra["mutant_counts"] = counts
 	extra["mutants_missed"] = missed
@@ -295,4 +318,177 @@ func oneMutant(args []string) int {
 	}
 	fmt.Println("no such mutant")
 	return 2
+}
+
+// benignVariant is a behaviour-preserving refactoring of /repo stored as full file contents.
+type benignVariant struct {
+	Name    string
+	Summary string            `json:"summary"`
+	Files   map[string]string `json:"files"`
+	Base    map[string]string `json:"base_sha256"`
+}
+
+func loadBenign(dir string) []benignVariant {
+	ds, _ := filepath.Glob(filepath.Join(dir, "*", "overlay.json"))
+	sort.Strings(ds)
+	var out []benignVariant
+	for _, f := range ds {
+		b, err := os.ReadFile(f)
+		if err != nil {
+			continue
+		}
+		var v benignVariant
+		if json.Unmarshal(b, &v) != nil {
+			continue
+		}
+		v.Name = filepath.Base(filepath.Dir(f))
+		out = append(out, v)
+	}
+	return out
+}
+
+// runBenign replays one benign variant for one property; outcome silent | false-alarm | stale | error.
+func runBenign(repo string, v benignVariant, prop string, known *core.KnownFile) (res mutantResult) {
+	res = mutantResult{Name: "benign/" + v.Name, Kind: "benign", Why: v.Summary}
+	defer func() {
+		if r := recover(); r != nil {
+			res.Outcome = "error"
+			res.Reported = []string{fmt.Sprintf("panic: %v", r)}
+		}
+	}()
+	ov := map[string][]byte{}
+	for p, content := range v.Files {
+		abs := filepath.Join(repo, p)
+		cur, err := os.ReadFile(abs)
+		if err == nil && v.Base[p] != "" {
+			h := sha256.Sum256(cur)
+			if hex.EncodeToString(h[:]) != v.Base[p] {
+				res.Outcome = "stale"
+				return
+			}
+		}
+		ov[abs] = []byte(content)
+	}
+	prog, err := core.Load(core.LoadOptions{Dir: repo, Overlay: ov})
+	if err != nil {
+		res.Outcome = "error"
+		res.Reported = []string{err.Error()}
+		return
+	}
+	sink := core.NewSink()
+	ctx := &rules.Ctx{P: prog, S: sink}
+	for _, r := range rules.For(prop) {
+		r.Run(ctx)
+	}
+	rules.Forget(prog)
+	knownSet := map[string]bool{}
+	for _, k := range known.Known {
+		knownSet[k.Property+"|"+k.Key] = true
+	}
+	for _, o := range sink.Obs {
+		if o.Property != prop {
+			continue
+		}
+		if o.Verdict == core.Violated && !knownSet[o.Property+"|"+o.Key] {
+			res.Reported = append(res.Reported, o.Key)
+		}
+		if o.Verdict == core.Undecided {
+			res.Reported = append(res.Reported, "UNDECIDED "+o.Key)
+		}
+	}
+	if len(res.Reported) > 0 {
+		res.Outcome = "false-alarm"
+	} else {
+		res.Outcome = "silent"
+	}
+	return
+}
+
+// benignAll runs every benign variant against every property with rules (development aid and self-test).
+func benignAll(args []string) int {
+	fs := flag.NewFlagSet("benign", flag.ExitOnError)
+	verif := fs.String("verif", "/verif", "verif directory")
+	only := fs.String("name", "", "only this variant")
+	_ = fs.Parse(args)
+	known, _ := core.LoadKnown(*verif + "/known_findings.json")
+	dir := os.Getenv("VERIF_REPO")
+	if dir == "" {
+		dir = "/repo"
+	}
+	props := []string{"C01", "C02", "C03", "C04", "C06", "C07", "C09", "C10", "C11", "C12", "C13", "C14", "C15", "C16", "C17", "C18", "C19", "C20"}
+	knownSet := map[string]bool{}
+	for _, k := range known.Known {
+		knownSet[k.Property+"|"+k.Key] = true
+	}
+	bad, runs := 0, 0
+	for _, v := range loadBenign(filepath.Join(*verif, "benign")) {
+		if *only != "" && v.Name != *only {
+			continue
+		}
+		ov := map[string][]byte{}
+		stale := false
+		for p, content := range v.Files {
+			abs := filepath.Join(dir, p)
+			cur, err := os.ReadFile(abs)
+			if err == nil && v.Base[p] != "" {
+				h := sha256.Sum256(cur)
+				if hex.EncodeToString(h[:]) != v.Base[p] {
+					stale = true
+				}
+			}
+			ov[abs] = []byte(content)
+		}
+		if stale {
+			fmt.Printf("benign/%s: stale (base file changed)\n", v.Name)
+			continue
+		}
+		prog, err := core.Load(core.LoadOptions{Dir: dir, Overlay: ov})
+		if err != nil {
+			fmt.Printf("benign/%s: does not load: %v\n", v.Name, err)
+			bad++
+			continue
+		}
+		for _, p := range props {
+			runs++
+			func() {
+				defer func() {
+					if r := recover(); r != nil {
+						fmt.Printf("benign/%s %s: panic %v\n", v.Name, p, r)
+						bad++
+					}
+				}()
+				sink := core.NewSink()
+				ctx := &rules.Ctx{P: prog, S: sink}
+				for _, r := range rules.For(p) {
+					r.Run(ctx)
+				}
+				var rep []string
+				for _, o := range sink.Obs {
+					if o.Property != p {
+						continue
+					}
+					if o.Verdict == core.Violated && !knownSet[o.Property+"|"+o.Key] {
+						rep = append(rep, o.Key)
+					}
+					if o.Verdict == core.Undecided {
+						rep = append(rep, "UNDECIDED "+o.Key)
+					}
+				}
+				if len(rep) > 0 {
+					bad++
+					r := strings.Join(rep, "; ")
+					if len(r) > 280 {
+						r = r[:280]
+					}
+					fmt.Printf("benign/%s %s: %s\n", v.Name, p, r)
+				}
+			}()
+		}
+		rules.Forget(prog)
+	}
+	fmt.Printf("benign variants × properties: %d runs, %d not silent\n", runs, bad)
+	if bad > 0 {
+		return 1
+	}
+	return 0
 }
